@@ -54,7 +54,8 @@ RULE = ("shift cases: arange-labelled tensors of rank 1-6, lengths from {1,2,3,4
         "distinct = distinct protocol line / oracle case key")
 PENDING_FINDINGS: list[str] = []
 # n-D corollaries (lifting of the 1-D theorems through Tensor.alongAxis) are obligations of this check too
-EXTRA_LEAN_MODULES = ["DirectVerif.Lemmas.TensorLiftC01", "DirectVerif.Lemmas.C01Dft"]
+EXTRA_LEAN_MODULES = ["DirectVerif.Lemmas.TensorLiftC01", "DirectVerif.Lemmas.C01Dft", "DirectVerif.Lemmas.C01Linear",
+                      "DirectVerif.Lemmas.C01DftND"]
 
 LENS = [1, 2, 3, 4, 5, 6, 7, 9, 12]
 
@@ -179,6 +180,102 @@ def _axis_tuples(rank):
     return [list(c) for c in itertools.combinations(ax, 2)] + [list(c) for c in itertools.combinations(ax, 3)]
 
 
+
+# --------------------------------------------------------------------------------------------------
+# call sites: how the operators are obtained (operator strings of the shipped YAMLs / DefaultConfig parsed by
+# direct.utils.str_to_class into functools.partial objects) and called (`dim=` literals of the model / transform classes)
+import ast as _ast
+import functools as _functools
+import re as _re
+
+
+@_functools.lru_cache(maxsize=None)
+def _operator_strings():
+    """-> sorted list of (forward_string, backward_string) pairs found under REPO (YAML `physics:` blocks + DefaultConfig)"""
+    pairs = set()
+    for y in list(core.REPO.rglob("*.yaml")) + list(core.REPO.rglob("*.yml")):
+        try:
+            txt = y.read_text()
+        except OSError:
+            continue
+        f = _re.findall(r"^\s*forward_operator:\s*(.+?)\s*$", txt, _re.M)
+        b = _re.findall(r"^\s*backward_operator:\s*(.+?)\s*$", txt, _re.M)
+        for ff, bb in zip(f, b):
+            pairs.add((ff.strip("'\""), bb.strip("'\"")))
+    try:
+        tree = _ast.parse((core.REPO / "direct/config/defaults.py").read_text())
+        d = {}
+        for n in _ast.walk(tree):
+            if isinstance(n, _ast.AnnAssign) and isinstance(n.target, _ast.Name) and n.target.id in ("forward_operator", "backward_operator") \
+                    and isinstance(n.value, _ast.Constant):
+                d[n.target.id] = n.value.value
+        if len(d) == 2:
+            pairs.add((d["forward_operator"], d["backward_operator"]))
+    except (OSError, SyntaxError):
+        pass
+    # forms the parser documents but no YAML uses
+    pairs |= {("fft2(centered=False, normalized=False)", "ifft2(centered=False, normalized=False)"),
+              ("fft2(normalized=False)", "ifft2(normalized=False)"), ("fft2(centered=True, normalized=True)", "ifft2(centered=True)")}
+    return sorted(pairs)
+
+
+@_functools.lru_cache(maxsize=None)
+def _spatial_dim_literals():
+    """literal `…spatial_dims… = (a, b)` / SpatialDims(TWO_D=…, THREE_D=…) tuples assigned anywhere under direct/"""
+    found = set()
+    for py in (core.REPO / "direct").rglob("*.py"):
+        try:
+            tree = _ast.parse(py.read_text())
+        except (OSError, SyntaxError):
+            continue
+        for n in _ast.walk(tree):
+            vals = []
+            if isinstance(n, _ast.Assign) and any("spatial_dims" in _ast.unparse(t) for t in n.targets):
+                vals = [n.value]
+            if isinstance(n, _ast.Call) and _ast.unparse(n.func).endswith("SpatialDims"):
+                vals = [k.value for k in n.keywords]
+            for v in vals:
+                try:
+                    lit = _ast.literal_eval(v)
+                except Exception:  # noqa: BLE001
+                    continue
+                if isinstance(lit, (tuple, list)) and 2 <= len(lit) <= 3 and all(isinstance(i, int) for i in lit):
+                    found.add(tuple(lit))
+    return sorted(found | {(1, 2), (2, 3)})
+
+
+def _parse_flags(op_string):
+    """independent reading of an operator string -> (name, centered, normalized, complex_input)"""
+    name = op_string.split("(")[0].strip()
+    flags = {"centered": True, "normalized": True, "complex_input": True}
+    for k in flags:
+        m = _re.search(rf"{k}\s*=\s*(True|False)", op_string)
+        if m:
+            flags[k] = m.group(1) == "True"
+    return name, flags["centered"], flags["normalized"], flags["complex_input"]
+
+
+def _as_view(rng, x):
+    """a tensor equal to x that is not a plain contiguous allocation (last axis keeps stride 1): -> (view, kind)"""
+    kind = rng.choice(["strided-slice", "permuted-memory", "offset-slice"])
+    if kind == "strided-slice" and x.dim() >= 2:
+        big = torch.zeros([2 * s for s in x.shape[:-1]] + [x.shape[-1]], dtype=x.dtype)
+        v = big[tuple(slice(None, None, 2) for _ in x.shape[:-1]) + (slice(None),)]
+        v.copy_(x)
+        return v, kind
+    if kind == "permuted-memory" and x.dim() >= 3:
+        perm = list(range(x.dim() - 1))
+        rng.shuffle(perm)
+        perm = perm + [x.dim() - 1]
+        inv = [perm.index(i) for i in range(x.dim())]
+        base = x.permute(perm).contiguous()
+        return base.permute(inv), kind
+    big = torch.zeros([x.shape[0] + 2] + list(x.shape[1:]), dtype=x.dtype)
+    v = big[1:-1]
+    v.copy_(x)
+    return v, "offset-slice"
+
+
 def _fft_cases(ctx: Ctx):
     """-> dicts {line, run (-> ('err', name) | ('ok', complex ndarray)), key, nontrivial, bucket}"""
     import direct.data.transforms as T
@@ -218,6 +315,58 @@ def _fft_cases(ctx: Ctx):
                 yield {"line": line("fft", shape, pos, d, [c, n, ci, inv], [DT_CODE[x.dtype]]), "run": run,
                        "nontrivial": any(cshape[a] >= 2 for a in d),
                        "bucket": f"fft/r{rank}/{len(d)}ax/c{c}n{n}ci{ci}" + ("/inv" if inv else "/fwd") + ("/odd" if odd else "/even")}
+    # call sites: operators obtained from the YAML / DefaultConfig strings through str_to_class, called with the `dim=`
+    # literals of the model classes (as tuple or list), on contiguous tensors and on views
+    from direct.utils import str_to_class
+
+    for (fs, bs) in _operator_strings():
+        for op_string in (fs, bs):
+            name, c, n, ci = _parse_flags(op_string)
+            inv = 1 if name == "ifft2" else 0
+            for dims in _spatial_dim_literals():
+                for rep in range(ctx.budget(1, 4)):
+                    rank = max(dims) + 1 + rng.choice([0, 0, 1])
+                    cshape = _shape(rng, rank, 260)
+                    pos = [rng.randrange(sz) for sz in cshape]
+                    x = torch.zeros(cshape + [2], dtype=torch.float32) if ci else torch.zeros(cshape, dtype=torch.complex64)
+                    if ci:
+                        x[tuple(pos) + (0,)] = 1.0
+                    else:
+                        x[tuple(pos)] = 1.0
+                    view = "contiguous"
+                    if rng.random() < 0.5:
+                        x, view = _as_view(rng, x)
+                    dform = rng.choice(["tuple", "list"])
+
+                    def run(x=x, d=dims, op_string=op_string, ci=ci, dform=dform):
+                        op = str_to_class("direct.data.transforms", op_string)
+                        out = op(x, dim=tuple(d) if dform == "tuple" else list(d))
+                        if ci:
+                            out = torch.view_as_complex(out.contiguous())
+                        return out.numpy().astype(np.complex128)
+                    yield {"line": line("fft", cshape + ([2] if ci else []), pos, list(dims), [int(c), int(n), int(ci), inv],
+                                        [DT_CODE[x.dtype]]), "run": run,
+                           "nontrivial": any(cshape[a] >= 2 for a in dims),
+                           "bucket": f"fft/callsite/{op_string}/dim={dims}/{dform}/{view}"}
+    # views of the impulse tensor for the direct calls
+    for _ in range(ctx.budget(40, 400)):
+        rank = rng.randint(2, 5)
+        dims = rng.choice(_axis_tuples(rank))
+        c, n, ci, inv = (rng.randint(0, 1) for _ in range(4))
+        cshape = _shape(rng, rank, 200)
+        pos = [rng.randrange(sz) for sz in cshape]
+        x = torch.zeros(cshape + [2], dtype=torch.float32) if ci else torch.zeros(cshape, dtype=torch.complex64)
+        x[tuple(pos) + ((0,) if ci else ())] = 1.0
+        x, view = _as_view(rng, x)
+        fn = T.ifft2 if inv else T.fft2
+
+        def run(x=x, d=tuple(dims), c=c, n=n, ci=ci, fn=fn):
+            out = fn(x, dim=d, centered=bool(c), normalized=bool(n), complex_input=bool(ci))
+            if ci:
+                out = torch.view_as_complex(out.contiguous())
+            return out.numpy().astype(np.complex128)
+        yield {"line": line("fft", cshape + ([2] if ci else []), pos, dims, [c, n, ci, inv], [DT_CODE[x.dtype]]), "run": run,
+               "nontrivial": any(cshape[a] >= 2 for a in dims), "bucket": f"fft/view/{view}"}
     # real float32 input with complex_input=False is accepted when every transformed length is a power of two
     for _ in range(ctx.budget(12, 100)):
         rank = rng.randint(2, 4)
@@ -526,6 +675,154 @@ def oracle(ctx: Ctx, deep: bool = False):
                 for key, what, obs in _fft_oracle_case(T, [2, h, w], [1, 2], c, 1, 1, seed):
                     yield Violation(key, what, {"op": "fft-laws", "shape": [2, h, w], "dims": [1, 2], "centered": c,
                                                 "normalized": 1, "complex_input": 1, "seed": seed, "law": key, "observed": obs})
+    # (2b) the single assumption about torch.fft that the theorems do not discharge: fftn / ifftn over a tuple of axes is the
+    #      composition of the 1-D DFTs along those axes (scale per axis), for every norm — checked against sequential 1-D
+    #      torch ffts and against the explicit DFT matrix
+    for _ in range(ctx.budget(40, 400)):
+        rank = rng.randint(2, 5)
+        shape_c = _shape(rng, rank, 600)
+        dims = rng.choice(_axis_tuples(rank))
+        if rng.random() < 0.3:
+            rng.shuffle(dims)
+        z = torch.view_as_complex(_rand_complex(rng, shape_c))
+        for norm in ("ortho", None, "backward", "forward"):
+            for nm, nd, one in (("fftn", torch.fft.fftn, torch.fft.fft), ("ifftn", torch.fft.ifftn, torch.fft.ifft)):
+                ctx.count(("fftn-factor", tuple(shape_c), tuple(dims), norm, nm), True, bucket="oracle/assumption-fftn-per-axis")
+                whole = nd(z, dim=tuple(dims), norm=norm)
+                seq = z
+                for a in dims:
+                    seq = one(seq, dim=a, norm=norm)
+                mat = z.numpy().astype(np.complex128)
+                for a in dims:
+                    nn_ = mat.shape[a]
+                    idx = np.arange(nn_)
+                    W = np.exp((2j if nm == "ifftn" else -2j) * np.pi * np.outer(idx, idx) / nn_)
+                    sc = {"ortho": 1 / math.sqrt(nn_), None: (1 / nn_ if nm == "ifftn" else 1.0),
+                          "backward": (1 / nn_ if nm == "ifftn" else 1.0), "forward": (1.0 if nm == "ifftn" else 1 / nn_)}[norm]
+                    mat = np.moveaxis(np.tensordot(W * sc, np.moveaxis(mat, a, 0), axes=(1, 0)), 0, a)
+                tol = 1e-4 * max(1.0, float(np.max(np.abs(mat))))
+                if not torch.allclose(whole, seq, atol=tol) or not np.allclose(whole.numpy(), mat, atol=tol):
+                    yield Violation("assumption/fftn-per-axis", f"torch.fft.{nm}(dim={dims}, norm={norm}) is not the composition of per-axis DFTs",
+                                    {"op": "fftn-factor", "shape": shape_c, "dims": list(dims), "norm": norm, "fn": nm})
+    # (2c) call sites: operators as the engines obtain them (str_to_class on the YAML / DefaultConfig strings, and
+    #      direct.environment.build_operators), called with the `dim=` literals of the model classes, as tuple and as list:
+    #      equal to the reference DFT with the flags written in the string, and each configured (forward, backward) pair is
+    #      an inverse pair
+    from direct.utils import str_to_class
+    import types
+
+    try:
+        from direct.environment import build_operators
+    except Exception as e:  # noqa: BLE001
+        build_operators = None
+        ctx.notes.append(f"direct.environment.build_operators not importable here: {err_name(e)}")
+    for (fs, bs) in _operator_strings():
+        for dims in _spatial_dim_literals():
+            rank = max(dims) + 1 + rng.choice([0, 1])
+            shape_c = _shape(rng, rank, 500)
+            xr = _rand_complex(rng, shape_c)
+            z = torch.view_as_complex(xr).numpy().astype(np.complex128)
+            ctx.count(("callsite", fs, bs, dims, tuple(shape_c)), any(shape_c[a] >= 2 for a in dims), bucket=f"oracle/callsite/{fs}|{bs}")
+            try:
+                ops = {"str_to_class": (str_to_class("direct.data.transforms", fs), str_to_class("direct.data.transforms", bs))}
+                if build_operators is not None:
+                    ops["build_operators"] = build_operators(types.SimpleNamespace(forward_operator=fs, backward_operator=bs))
+            except Exception as e:  # noqa: BLE001
+                yield Violation("callsite/operator-string-unparseable", f"operator string {fs!r} / {bs!r} cannot be turned into an operator: {err_name(e)}",
+                                {"op": "callsite", "forward": fs, "backward": bs, "dims": list(dims), "shape": shape_c, "seed": 0})
+                continue
+            for how, (F, B) in ops.items():
+                for dform in (tuple(dims), list(dims)):
+                    bad = []
+                    try:
+                        for s_, op, inv in ((fs, F, False), (bs, B, True)):
+                            nm, c, n, ci = _parse_flags(s_)
+                            x = xr if ci else torch.view_as_complex(xr)
+                            y = op(x, dim=dform)
+                            ref = _np_ref(z, tuple(dims), c, n, nm == "ifft2")
+                            if not np.allclose(_as_np(y, ci), ref, atol=1e-4 * max(1.0, float(np.max(np.abs(ref))))):
+                                bad.append(f"{s_} differs from the reference DFT with the flags of the string")
+                        _, _, _, ci_f = _parse_flags(fs)
+                        x = xr if ci_f else torch.view_as_complex(xr)
+                        back = B(F(x, dim=dform), dim=dform)
+                        if back.shape != x.shape or not np.allclose(_as_np(back, ci_f), z, atol=1e-4):
+                            bad.append("backward(forward(x)) != x")
+                    except Exception as e:  # noqa: BLE001
+                        bad.append(f"raises {err_name(e)}: {e}"[:160])
+                    for what in bad:
+                        yield Violation("callsite/configured-operator", f"operators {fs!r}/{bs!r} obtained via {how}, dim={dform!r}: {what}",
+                                        {"op": "callsite", "forward": fs, "backward": bs, "dims": list(dims), "shape": shape_c,
+                                         "how": how, "list": isinstance(dform, list), "what": what})
+    # (2d) views and aliasing: on strided / permuted / offset / expanded views the result equals the result on a contiguous
+    #      copy, the input is not modified, and the output of fft2 / ifft2 shares no memory with the input
+    alias_shift = 0
+    for _ in range(ctx.budget(60, 600)):
+        rank = rng.randint(2, 5)
+        shape_c = _shape(rng, rank, 300)
+        dims = rng.choice(_axis_tuples(rank))
+        c, n, ci = rng.randint(0, 1), rng.randint(0, 1), rng.randint(0, 1)
+        base = _rand_complex(rng, shape_c)
+        base = base if ci else torch.view_as_complex(base)
+        if rng.random() < 0.25:
+            e_ax = rng.randrange(rank)
+            small = base.narrow(e_ax, 0, 1)
+            x, kind = small.expand(*base.shape), "expanded"
+        else:
+            x, kind = _as_view(rng, base)
+        ref_in = x.clone()
+        ctx.count(("view", kind, tuple(shape_c), tuple(dims), c, n, ci), True, bucket=f"oracle/views/{kind}")
+        for nm in ("fft2", "ifft2", "fftshift", "ifftshift"):
+            try:
+                if nm in ("fft2", "ifft2"):
+                    out = _call(T, nm, x, dims, c, n, ci)
+                    exp = _call(T, nm, ref_in.contiguous(), dims, c, n, ci)
+                else:
+                    out = getattr(T, nm)(x, dim=list(dims))
+                    exp = getattr(T, nm)(ref_in.contiguous(), dim=list(dims))
+            except Exception as e:  # noqa: BLE001
+                yield Violation(f"views/{nm}-raises", f"{nm} raises {err_name(e)} on a {kind} view of a valid tensor",
+                                {"op": "view", "fn": nm, "kind": kind, "shape": shape_c, "dims": list(dims), "observed": repr(e)[:200]})
+                continue
+            if out.shape != exp.shape or not torch.equal(torch.view_as_real(out) if out.is_complex() else out,
+                                                         torch.view_as_real(exp) if exp.is_complex() else exp):
+                yield Violation(f"views/{nm}-differs", f"{nm} on a {kind} view differs from {nm} on the contiguous copy",
+                                {"op": "view", "fn": nm, "kind": kind, "shape": shape_c, "dims": list(dims)})
+            if not torch.equal(torch.view_as_real(x) if x.is_complex() else x, torch.view_as_real(ref_in) if ref_in.is_complex() else ref_in):
+                yield Violation(f"views/{nm}-modifies-input", f"{nm} modifies its input ({kind} view)",
+                                {"op": "view", "fn": nm, "kind": kind, "shape": shape_c, "dims": list(dims)})
+            shares = out.untyped_storage().data_ptr() == x.untyped_storage().data_ptr()
+            if shares and nm in ("fft2", "ifft2"):
+                yield Violation(f"views/{nm}-aliases-input", f"the output of {nm} shares memory with its input ({kind} view)",
+                                {"op": "view", "fn": nm, "kind": kind, "shape": shape_c, "dims": list(dims)})
+            elif shares:
+                alias_shift += 1
+    if alias_shift:
+        ctx.notes.append(f"aliasing observation: {alias_shift} fftshift/ifftshift calls returned a tensor sharing memory with the input (every shifted "
+                         "axis had length 1: roll_one_dim returns its argument when shift % n == 0); values are correct, the caller must not "
+                         "mutate the result in place")
+    # argument forms of `dim` that are rejected although they denote valid non-negative integer axes (observations)
+    x = torch.zeros(2, 3, 4, 5, 2)
+    for label, d in (("numpy integers", (np.int64(2), np.int64(3))), ("numpy array", np.array([2, 3])), ("torch tensor", torch.tensor([2, 3]))):
+        ctx.count(("dimform", label), True, bucket="oracle/dim-forms")
+        try:
+            T.fft2(x, dim=d)
+        except TypeError:
+            ctx.notes.append(f"dim given as {label} is rejected with TypeError ('does not support negative indexing'): only Python ints pass "
+                             "`isinstance(_, int)`")
+        except Exception as e:  # noqa: BLE001
+            ctx.notes.append(f"dim given as {label}: {err_name(e)}")
+    ctx.count(("pair-axis-strided",), True, bucket="oracle/views/pair-axis-strided")
+    try:
+        T.fft2(torch.zeros(2, 3, 4, 4)[..., ::2], dim=(1, 2))
+    except RuntimeError:
+        ctx.notes.append("view observation: a (…, 2) tensor whose pair axis has stride != 1 (e.g. t[..., ::2]) is rejected by view_as_complex "
+                         "with RuntimeError — fft2/ifft2 require the real/imaginary pair to be adjacent in memory")
+    try:
+        str_to_class("direct.data.transforms", "fft2()")
+    except AttributeError:
+        ctx.notes.append("str_to_class observation: 'fft2()' (empty argument list) raises AttributeError (looked up as attribute 'fft2()')")
+    except Exception:  # noqa: BLE001
+        pass
     # (3) rejected inputs
     x = torch.zeros(2, 3, 4, 2)
     for nm in ("fft2", "ifft2"):
